@@ -152,7 +152,9 @@ func genC26(t *rapid.T) c26Case {
 			r.Unauth = rapid.Bool().Draw(t, "anonflag")
 		}
 	}
-	resolverKinds := []string{"identity", "identity-ttl", "unresolved", "unresolved", "error", "unavailable"}
+	// error-echo / unavailable-echo: the resolver's own error text quotes the
+	// credential it was asked about (a wrapped lookup or URL error does that)
+	resolverKinds := []string{"identity", "identity-ttl", "unresolved", "unresolved", "error", "unavailable", "error-echo", "unavailable-echo"}
 	genReq := func() c26Req {
 		r := c26Req{}
 		genCaller(&r)
@@ -329,6 +331,10 @@ func runC26(c c26Case) (out lib.Outcome) {
 			return vgirpc.TokenIdentity{}, false, errors.New("backing store down")
 		case "unavailable":
 			return vgirpc.TokenIdentity{}, false, &vgirpc.AuthUnavailableError{Detail: "store timeout", RetryAfter: 9}
+		case "error-echo":
+			return vgirpc.TokenIdentity{}, false, fmt.Errorf("lookup of %q: connection refused", cred)
+		case "unavailable-echo":
+			return vgirpc.TokenIdentity{}, false, fmt.Errorf("GET https://idp.test/introspect?token=%s: %w", cred, &vgirpc.AuthUnavailableError{Detail: "idp timeout", RetryAfter: 9})
 		}
 		return vgirpc.TokenIdentity{}, false, nil
 	}
